@@ -298,6 +298,134 @@ def liveness_oracle(case, out):
                      f"base/set/nackfrag = {last_an})", "cause": cause}]
 
 
+def be_complete_oracle(case, out):
+    """best-effort pair: a fragmented sample written after the match ALL of whose fragment datagrams reached the reader
+    before anything of a later sample (DATA / DATA_FRAG with a higher number, or a GAP reaching it) did, must be in the
+    delivered list from that step on — whatever happened to earlier samples. Which datagrams reached the reader is read
+    from the case's own trace: the emitted datagrams of the implementation and the deliver / drop / dup / flush ops."""
+    tr = Track()
+    net = []                   # in-flight datagram strings, as the engine keeps them
+    seen = {}                  # sn -> set of fragment numbers delivered while nothing later had been delivered
+    total = {}                 # sn -> N from the fragment headers
+    spoiled = 0                # highest number such that something of it (or a GAP up to it) has reached the reader
+    due = {}                   # sn -> op index at which the sample became complete
+    done = set()               # complete inside the current step (a flush delivers many datagrams)
+    viol = []
+
+    def reach(d):
+        nonlocal spoiled
+        who, subs = subs_of(d)
+        if who != "W":
+            return
+        for x in subs:
+            a = x.split(":")
+            if a[0] == "frag":
+                sn, start, fsize, dsize = int(a[1]), int(a[2]), int(a[4]), int(a[5])
+                if sn > spoiled or (sn == spoiled and sn in seen):
+                    total[sn] = div_ceil(dsize, fsize)
+                    seen.setdefault(sn, set()).add(start)
+                    if seen[sn] >= set(range(1, total[sn] + 1)):
+                        done.add(sn)
+                # a fragment of sn closes the window of every smaller number that is not complete yet
+                for k in list(seen):
+                    if k < sn and k not in due and k not in done:
+                        seen.pop(k)
+                spoiled = max(spoiled, sn)
+            elif a[0] == "data":
+                sn = int(a[1])
+                for k in list(seen):
+                    if k <= sn and k not in due and k not in done:
+                        seen.pop(k)
+                spoiled = max(spoiled, sn)
+            elif a[0] == "gap":
+                top = max([int(a[2]) - 1] + ([int(v) for v in a[3].split(",")] if a[3] != "-" else []))
+                for k in list(seen):
+                    if k <= top and k not in due and k not in done:
+                        seen.pop(k)
+                spoiled = max(spoiled, top)
+
+    for i, (l, o) in enumerate(zip(case.lines, out)):
+        t = l.split()
+        st = parse_step(o)
+        if st["kind"] in ("panic", "poisoned"):
+            break
+        was_matched = tr.matched
+        tr.op(t)
+        if st["kind"] != "step" or tr.rel or tr.rel is None:
+            continue
+        if t[0] in ("deliver", "drop", "dup") and not st.get("empty") and net:
+            k = int(t[1]) % len(net)
+            if t[0] == "deliver":
+                reach(net.pop(k))
+            elif t[0] == "drop":
+                net.pop(k)
+            else:
+                net.append(net[k])
+        if t[0] == "flush":
+            for d in net + st["emitted"]:
+                reach(d)
+            net = []
+        else:
+            net += st["emitted"]
+        have = {sn for sn, _ in st["cache"]}
+        for sn in sorted(done):
+            relevant = tr.matched and tr.first_relevant is not None and sn > tr.first_relevant
+            if sn not in due and sn in tr.published and relevant:
+                due[sn] = i
+        for sn, at in due.items():
+            if sn not in have and not tr.rematch:
+                viol.append({"what": f"op {i} `{l}`: best-effort reader: every one of the {total[sn]} fragments of sample {sn} reached the reader "
+                                     f"(complete at op {at}) before anything of a later sample did, but the sample is not delivered "
+                                     f"(delivered: {sorted(have)})", "at": i, "cause": "complete-fragmented-sample-not-delivered"})
+                return viol
+    return viol
+
+
+def gen_be_frag_loss(r, cfg):
+    """best-effort pair, two or three fragmented samples (2-4 fragments each); exactly one fragment of an EARLIER sample is
+    dropped, the later samples arrive completely (in order, shuffled inside a sample, or delivered one by one between the writes)"""
+    f = r.choice([8, 8, 9, 16, 100, 1000])
+    lines = [cfg_line(cfg), f"init be {r.choice(['vol', 'tl'])} {f}", "match"]
+    ns = r.range(2, 3)
+    ks = [r.choice([2, 3, 3, 4]) for _ in range(ns)]
+    sizes = [r.choice([k * f, k * f - 1, (k - 1) * f + 1]) for k in ks]
+    victim = r.below(ns - 1)                      # an earlier one
+    lost = r.below(ks[victim])
+    mode = r.below(3)
+    if mode == 0:                                 # everything written, one drop, FIFO
+        for n in sizes:
+            lines.append(f"write p{n}.{r.below(256)}")
+        lines.append(f"drop {sum(ks[:victim]) + lost}")
+        if r.chance(1, 3):
+            lines.append(f"dup {r.below(sum(ks) - 1)}")
+        lines.append("flush")
+    elif mode == 1:                               # per sample: write, then deliver its fragments in a shuffled order
+        for j, n in enumerate(sizes):
+            lines.append(f"write p{n}.{r.below(256)}")
+            left = list(range(ks[j]))
+            if j == victim:
+                lines.append(f"drop {lost}")
+                left.remove(lost)
+            order = r.shuffle(left)
+            cur = sorted(left)
+            for x in order:
+                lines.append(f"deliver {cur.index(x)}")
+                cur.remove(x)
+    else:                                         # all written; blocks in order, shuffled inside each block
+        for n in sizes:
+            lines.append(f"write p{n}.{r.below(256)}")
+        cur = [(j, x) for j in range(ns) for x in range(ks[j])]
+        lines.append(f"drop {cur.index((victim, lost))}")
+        cur.remove((victim, lost))
+        for j in range(ns):
+            for x in r.shuffle([y for y in range(ks[j]) if (j, y) in cur]):
+                lines.append(f"deliver {cur.index((j, x))}")
+                cur.remove((j, x))
+    if r.chance(1, 2):
+        lines += [f"write x{r.below(256):02x}", "flush"]
+    return Case(lines, {"rel": False, "kind": "be-frag-loss"})
+
+
 # ----------------------------------------------------------------------------- generators
 
 def gen_payload(r, f, small=False):
